@@ -263,3 +263,15 @@ Definition eval_expression_str (prec : prectab) (ev : env) (text : str) : res Z 
   | ScanStuck => Err EOther
   | ScanOutOfFuel => OutOfFuel
   end.
+
+(** cli_main's -D handling: each NAME=VALUE is evaluated in turn with eval_expression_str in the
+    root scope (so a later definition may use an earlier one) and bound as a constant; an exception
+    escapes before anything is assembled. *)
+Fixpoint eval_defines (prec : prectab) (defs : list (str * str)) (acc : list (str * Z)) : res (list (str * Z)) :=
+  match defs with
+  | [] => Ok acc
+  | (name, text) :: rest =>
+      do v <- eval_expression_str prec
+                (fun n => match assoc_str (rev acc) n with Some x => Ok x | None => Err ESymbol end) text;
+      eval_defines prec rest (acc ++ [(name, v)])
+  end.
